@@ -84,6 +84,9 @@ ALPHABET_FULL = list(REQUESTS) + ["set_sv"]
 REQUESTS["link_c2_r2"] = (35, [(2, [2])], False)
 
 
+CONFIGURED = ["def1_sv", "link_c1_r1", "enable_all"]
+
+
 class Ref:
     def __init__(self):
         self.reports = {}  # rptid -> [vid]
@@ -348,10 +351,12 @@ class Harness:
         return {"reports": sorted(reports.items(), key=repr), "links": sorted(((k, v[0], v[1]) for k, v in links.items()), key=repr),
                 "report_objects": sorted((repr(k), hbfs.plain_attrs(v)) for k, v in h.registered_reports.items()),
                 "link_objects": sorted((repr(k), hbfs.plain_attrs(v)) for k, v in h.registered_collection_events.items()),
+                "other_containers": hbfs.container_attrs(h, skip=("_registered_reports", "_registered_collection_events")),
                 "sv": self.h.status_variables[SV].value, "comm": self.ep.comm()}
 
 
-def run_history(history):
+def run_history(history, prefix=()):
+    history = list(prefix) + list(history)
     out = {}
 
     def driver(s):
@@ -614,6 +619,16 @@ def run(ctx):
     ctx.setcov("alphabet", alphabet)
     ctx.setcov("exhaustive_depth", d0)
     ctx.setcov("max_depth", d1)
+    # the same search started from a working configuration instead of the empty one (report 1 linked to event 1, enabled, reported once):
+    # delete / redefine / relink histories of total length 3 + d that the search from the empty configuration cannot reach within its depth
+    a2 = alphabet if ctx.thorough else ["delall", "del1", "unlink_c1", "def1_svdv", "def1_sv", "link_c1_r1", "enable_all", "def2_dv", "link_c1_r12",
+                                        "disable_c1", "link_c1_r2", "set_sv", "defA_dv", "link_c1_r1A"]
+    e0, e1 = (2, 7) if ctx.thorough else (1, 6)
+    st2 = hbfs.search(ctx, run_history, a2, "c12-from-configured", e0, e1, opts={"prefix": CONFIGURED}, chunk=8)
+    ctx.setcov("search_from_configured", {"prefix": CONFIGURED, "alphabet": a2, "exhaustive_depth": e0, "max_depth": e1, **{k: v for k, v in st2.items()}})
+    ctx.setcov("states", st["states"] + st2["states"])
+    ctx.setcov("transitions", st["transitions"] + st2["transitions"])
+    ctx.setcov("traces_validated_against_impl", st["transitions"] + st2["transitions"])
 
 
 def replay(ctx, detail):
@@ -640,7 +655,7 @@ def replay(ctx, detail):
         for sig, d in r["v"]:
             ctx.violation(sig, d)
         return
-    r = run_history(case["history"])
+    r = run_history(case["history"], **{k: v for k, v in (case.get("opts") or {}).items() if k == "prefix"})
     ctx.evaluations += 1
     print("replayed", case["history"], "->", r.get("canon"))
     for sig, d in r.get("v", ()):
